@@ -9,14 +9,19 @@ PROPS = "props/C02.v"
 RULE = ("oracle: sentinel + fixed neighbourhood cases (all orders of overlapping index/slice alternatives x 5 bodies x 3 inputs) "
         "+ random cases: path expressions of the path-safe grammar (field/index/slice/iterate, .., recurse, select, if, //, "
         "first, limit, getpath, empty, error, ?, try, pipe, comma up to 3 alternatives, bindings), guided by the input, x "
-        "random JSON inputs (depth<=3) under 9 sharing prefixes x 31 update bodies / 12 assignment values / 6 arithmetic "
+        "random JSON inputs (depth<=3) under 9 sharing prefixes x 38 update bodies (7 return a prefix or inner slice of their input) / 14 assignment values / 6 arithmetic "
         "operators; systematic block: all ordered pairs and 1/8 (quick) or all (thorough) of the ordered triples of 20 "
         "alternatives (slices reaching the end .[k:] .[k:len] .[-k:], negative indices, negative bounds, out-of-range "
         "indices) on [0,1,2,3] x del / |= empty / |= partial-empty; kinds: path(p) vs p+getpath, |=, =, op=, del, delpaths, map_values, pick, paths, to_entries, "
         "with_entries, tostream vs their defining reductions in jq on the same implementation; invalid-path forms. "
         "nat: getpath/setpath/delpaths natives on random values and paths vs the extracted value model. "
         "heap: random Go heaps with aliasing x 1-4 update/delete/sweep/delpaths operations with new values aliasing the "
-        "state vs the extracted heap model (result and every pre-existing container). distinct = distinct case lines")
+        "state vs the extracted heap model (result, every pre-existing container, and the result with every slice extended "
+        "to its capacity = the hidden cells of the backing arrays); 1/5 of the heap cases are growth scenarios (an owned array "
+        "replaced by a prefix slice of itself, then index writes at len..cap-1 and beyond). oracle block modify-grow: "
+        "(A[i], A, A[j]) path lists and variants x 11 slice-returning update bodies x 4 inputs. A failing generated case is "
+        "attributed to the D5/D9 family only if it still fails with the TOP-LEVEL container of the body's output copied and "
+        "passes with the output deep-copied (docs/C02.md). distinct = distinct case lines")
 
 
 def oracle(c, seed, n, tier, extra=None, name="oracle", stream="oracle"):
@@ -67,7 +72,8 @@ def run(tier, seed):
     st = oracle(c, seed, 9000 if quick else 300000, tier)
     if st:
         stats["oracle"] = dict(cases=st.get("cases"), failing=st.get("oracle_failing_cases"), family_hits=st.get("family_hits"),
-                               distribution=st.get("distribution"))
+                               distribution=st.get("distribution"), grow_block_cases=st.get("grow_block_cases"),
+                               grow_random_cases=st.get("grow_random_cases"))
     # nat + heap: extracted models
     exe_m, mlog = V.build_model("c02", "extract/ExtractC02.v", "c02model", deps=["c02/Run.v"])
     if exe_m is None:
@@ -113,6 +119,8 @@ def run(tier, seed):
             for line, verdict in [x for x in mism_all if x not in mism][:5]:
                 c.broken_correspondence("nat:dref", line, "the natives differ from deletion against the original value: " + verdict)
         stats[stream] = dict(cases=st.get("lines"), mismatches=len(mism))
+        if stream == "heap":
+            stats[stream].update(grow_cases=st.get("grow_cases"), grow_cases_exposing=st.get("grow_cases_exposing"))
         if stream == "heap":
             # how often the natives deviate from VALUE semantics on aliased heaps (expected while the
             # allocator findings stand; informational, the jq-level consequences are the oracle's business)
